@@ -1,6 +1,8 @@
 package drv
 
 import (
+	"verifharness/envx"
+	"sync"
 	"strings"
 	"bytes"
 	"encoding/binary"
@@ -560,6 +562,117 @@ func (i *Inst) RunRelay(r *RlScript, tw *TraceWriter, rng *rand.Rand) error {
 			tw.Line(M{"ev": "c2b", "transport": r.Transport, "decl": len(want), "carr": len(want), "got": len(got), "prefix": pre, "end": false, "hookbytes": 0, "skipped": false, "burst": len(sizes),
 				"closing": true, "apart": apart, "hostEnd": hostEnd})
 			return nil
+		case "bcrowd":
+			// the host streams n bytes to a client that reads in bursts with pauses (the gateway's writes to it do not
+			// complete in one go) WHILE k other tunnels on the same gateway relay streams of their own to clients that
+			// read slowly too: what this client receives is still its own host's stream, exactly
+			n, k := num(a, "n", 4<<20), num(a, "k", 6)
+			type comp struct {
+				t  *TunConn
+				bc *envx.BConn
+			}
+			var comps []comp
+			for j := 0; j < k; j++ {
+				pcj := i.NewProtoCtx(r.Script, rand.New(rand.NewSource(rng.Int63())))
+				nb := be.NConns()
+				tj, _, err := i.Open(pcj.OpenOpts())
+				if err != nil || tj == nil {
+					return fmt.Errorf("companion tunnel %d: %v", j, err)
+				}
+				defer tj.Close()
+				okc := true
+				for _, st := range r.Steps {
+					pkt, _, err := pcj.Build(st)
+					if err != nil {
+						return err
+					}
+					if re, err := tj.Step(pkt); err != nil || re.End {
+						okc = false
+						break
+					}
+				}
+				if !okc || !be.WaitConn(nb+1, 5*time.Second) {
+					return fmt.Errorf("companion tunnel %d could not be set up", j)
+				}
+				comps = append(comps, comp{tj, be.Conn(nb)})
+			}
+			stopC := make(chan struct{})
+			var cwg sync.WaitGroup
+			for j, c := range comps {
+				cwg.Add(2)
+				go func(j int, c comp) { // the companion's host
+					defer cwg.Done()
+					buf := prng(prodSeed+int64(1000+j), 1<<16)
+					for {
+						select {
+						case <-stopC:
+							return
+						default:
+						}
+						if c.bc.Send(buf) != nil {
+							return
+						}
+					}
+				}(j, c)
+				go func(c comp) { // the companion's slow client
+					defer cwg.Done()
+					for cnt := 0; ; cnt++ {
+						select {
+						case <-stopC:
+							return
+						default:
+						}
+						if _, err := c.t.Recv(500 * time.Millisecond); err != nil && err.Error() != "timeout" {
+							return
+						}
+						if cnt%8 == 0 {
+							time.Sleep(2 * time.Millisecond)
+						}
+					}
+				}(c)
+			}
+			chunk := prng(prodSeed+int64(ai), n)
+			produced = append(produced, chunk...)
+			sendErr := make(chan error, 1)
+			go func() { sendErr <- bc.Send(chunk) }()
+			npk, rcv, allwf := 0, 0, true
+			deadline := time.Now().Add(60 * time.Second)
+			for len(received) < len(produced) && time.Now().Before(deadline) {
+				b, err := t.Recv(5 * time.Second)
+				if err != nil {
+					break
+				}
+				d := tsgu.Decode(b)
+				if d.Type != tsgu.PktData {
+					allwf = false
+					continue
+				}
+				npk++
+				if !d.WellForm || d.HdrLen != d.WireLen {
+					allwf = false
+				}
+				received = append(received, d.Payload...)
+				rcv += len(d.Payload)
+				if npk%16 == 0 {
+					time.Sleep(3 * time.Millisecond)
+				}
+			}
+			close(stopC)
+			for _, c := range comps {
+				c.bc.Close()
+				c.t.Close()
+			}
+			cwg.Wait()
+			pre := len(received) <= len(produced) && bytes.Equal(received, produced[:len(received)])
+			tw.Line(M{"ev": "b2c", "transport": r.Transport, "n": n, "sizecls": "crowded", "npk": npk, "rcv": rcv, "prefix": pre, "allwf": allwf})
+			select {
+			case <-sendErr:
+			case <-time.After(10 * time.Second):
+			}
+			if len(received) < len(produced) || !pre {
+				bc.Close()
+				return nil
+			}
 		case "reout":
 			// legacy: while the host is sending, the client sends a second RDG_OUT_DATA request under the tunnel's
 			// identifier and reads on there.  What it reads - the rest of the old connection up to its end, then the
